@@ -148,6 +148,24 @@ impl NodeState {
         (json!({"result": {"key": key, "generation": newgen, "string": string}}), true)
     }
 
+    /// deldatastore: returns (reply, effect applied?)
+    pub fn datastore_delete(&mut self, params: &Value) -> (Value, bool) {
+        let key: Vec<String> = match params.get("key") {
+            Some(Value::Array(a)) => a.iter().filter_map(|x| x.as_str().map(String::from)).collect(),
+            Some(Value::String(s)) => vec![s.clone()],
+            _ => return (rpc_error(-32602, "missing key"), false),
+        };
+        let generation = params.get("generation").and_then(|g| g.as_u64());
+        match self.datastore.get(&key).cloned() {
+            None => (rpc_error(1200, "does not exist"), false),
+            Some((_, cur)) if generation.map(|g| g != cur).unwrap_or(false) => (rpc_error(1201, "generation is different"), false),
+            Some((string, cur)) => {
+                self.datastore.remove(&key);
+                (json!({"result": {"key": key, "generation": cur, "string": string}}), true)
+            }
+        }
+    }
+
     pub fn listdatastore(&self, params: &Value) -> Value {
         let key: Vec<String> = match params.get("key") {
             Some(Value::Array(a)) => a.iter().filter_map(|x| x.as_str().map(String::from)).collect(),
